@@ -41,6 +41,9 @@ type Case struct {
 	// ForeignGoPackage: the file's go_package names another import path ending in the struct package
 	// name; the structs really live where import_path_overrides says (vendored / relocated structs).
 	ForeignGoPackage bool
+	// FullPathOverride: default_package_name is a full import path at which nothing lives; the
+	// import_path_overrides entry keyed by that full path names the real place of the structs.
+	FullPathOverride bool
 	// RawParam, when set, replaces the computed parameter string (C16 error cases).
 	RawParam *string
 	// NoWrite: do not place the case in the Go workspace (L1-only cases).
@@ -101,7 +104,13 @@ func (w *Workspace) Prepare(c *Case) {
 			c.Cfg.TargetPackageName = tp
 			c.TFImport = base + "/tf/" + tp
 		}
-		if c.UseOverride {
+		if c.FullPathOverride {
+			c.Cfg.DefaultPackageName = "upstream.example/api/v2/" + c.StructPkg
+			if c.Cfg.ImportPathOverrides == nil {
+				c.Cfg.ImportPathOverrides = map[string]string{}
+			}
+			c.Cfg.ImportPathOverrides[c.Cfg.DefaultPackageName] = c.StructImport
+		} else if c.UseOverride {
 			c.Cfg.DefaultPackageName = c.StructPkg
 			if c.Cfg.ImportPathOverrides == nil {
 				c.Cfg.ImportPathOverrides = map[string]string{}
@@ -334,6 +343,7 @@ type (
 	// not the configured duration type: the names only end / start like it
 	BillingDuration int64
 	DurationSeconds int64
+	BackoffDuration float64
 	CustomA    struct{ V string }
 	CustomB    bool
 	Custom_C   struct{ V string }
